@@ -86,3 +86,33 @@ if __name__ == "__main__":
         sys.exit(confirm(sys.argv[2], sys.argv[3], sys.argv[4]))
     if sys.argv[1] == "run":
         sys.exit(run(sys.argv[2], sys.argv[3] if len(sys.argv) > 3 else "quick", sys.argv[4:]))
+
+
+def matrix(repo, names, props, tier="quick"):
+    """Cross-talk matrix on a scratch copy of the repository (never /repo): for each seeded change
+    run the given property checks with FIV_REPO=<repo>; prints one line per (change, property)."""
+    out = {}
+    env = dict(ENV, FIV_REPO=repo)
+    for n in names:
+        d = os.path.join(SEEDED, n)
+        sh("git checkout -- .", repo)
+        rc, o = sh(f"git apply {d}/patch.diff", repo)
+        if rc != 0:
+            print(f"{n}: patch does not apply: {o[-200:]}", flush=True)
+            continue
+        row = {}
+        for p in props:
+            pr = subprocess.run(f"./check {p} {tier}", cwd=VERIF, shell=True, executable="/bin/bash", stdout=subprocess.PIPE, stderr=subprocess.STDOUT, text=True, env=env)
+            sig = [l.strip() for l in pr.stdout.splitlines() if l.strip().startswith("signature:")]
+            row[p] = {"rc": pr.returncode, "sig": sig[0][:160] if sig else ""}
+            print(f"MATRIX {n} {p} rc={pr.returncode} {sig[0][:160] if sig else ''}", flush=True)
+        out[n] = row
+        sh("git checkout -- .", repo)
+    json.dump(out, open(os.path.join(os.environ.get("FIV_ALT_DIR", "/tmp"), "matrix.json"), "w"), indent=1)
+
+
+if __name__ == "__main__" and sys.argv[1] == "matrix":
+    repo = sys.argv[2]
+    names = sys.argv[3].split(",") if sys.argv[3] != "all" else sorted(os.listdir(SEEDED))
+    props = sys.argv[4].split(",") if len(sys.argv) > 4 and sys.argv[4] != "all" else [f"C{i:02d}" for i in range(1, 21)]
+    matrix(repo, names, props, sys.argv[5] if len(sys.argv) > 5 else "quick")
